@@ -135,6 +135,70 @@ def case(c):
             'outcome': (idx.size, round(float(np.log10(err + 1e-300))))}
 
 
+# ------------------------------- sequences of VolumeModels on shared objects
+FN_SEQ = 'mc.checks.c02_operator:case_sequence'
+
+
+def case_sequence(c):
+    """VolumeModels are built one after the other from the SAME model and
+    grid objects (next frequency, next solve) and stay alive: the operator of
+    EVERY one of them - checked after all were built - equals the reference
+    for its own frequency.  Nothing may leak through the shared grid / model
+    or through class-level state."""
+    import emg3d
+    gspec = {'shape': c['shape'], 'w': 'rnd'}
+    tm = zoo.mesh(gspec)
+    if c['gridclass'] == 'BaseMesh':
+        grid = emg3d.meshes.BaseMesh(h=[np.array(x) for x in tm.h],
+                                     origin=np.array(tm.origin))
+    else:
+        grid = tm
+    model = zoo.model(grid, c['model'])
+    alive = []
+    for freq in c['freqs']:
+        sfield = emg3d.Field(grid, frequency=freq)
+        alive.append((freq, emg3d.models.VolumeModel(model, sfield),
+                      sfield.field.dtype))
+    n = tuple(grid.shape_cells)
+    fi = np.flatnonzero(fit.interior_mask(n))
+    viol = []
+    cols = fi[::max(1, len(fi)//6)][:6]
+    for k, (freq, vm, dtype) in enumerate(alive):
+        A = fit.assemble_for(model, zoo.sval_of(freq))
+        if np.dtype(dtype).kind != 'c':
+            A = A.real
+        Aref = A.toarray()[np.ix_(fi, cols)]
+        Aimp = impl.amat_dense(tm, vm, dtype, cols=cols)[fi]
+        err = np.abs(Aimp - Aref).max()/np.abs(Aref).max()
+        if not err <= 1e-11:
+            viol.append({
+                'cls': 'operator-depends-on-earlier-volume-models',
+                'what': f'VolumeModel #{k} of the sequence {c["freqs"]} on '
+                        f'one {c["gridclass"]} / model ({c["model"]}), '
+                        f'checked after all were built: rel. error '
+                        f'{err:.2e}'})
+            break
+    return {'viol': viol, 'compared': len(alive),
+            'transitions': len(alive), 'nontrivial': len(alive) > 1,
+            'outcome': (c['gridclass'], len(alive), bool(viol))}
+
+
+def sequence_cases(tier):
+    out = []
+    fr = (0.77, 2.5, -3.1)
+    depth = 3 if tier == 'quick' else 4
+    for gc in ('TensorMesh', 'BaseMesh'):
+        for m in ({'case': 'triaxial', 'prof': 'rnd', 'mu_r': True},
+                  {'case': 'isotropic', 'prof': 'rnd', 'mu_r': True,
+                   'eps_r': True},
+                  {'case': 'HTI', 'prof': 'rnd'}):
+            for d in range(2, depth + 1):
+                for seq in itertools.product(fr, repeat=d):
+                    out.append({'shape': (3, 2, 4), 'gridclass': gc,
+                                'model': m, 'freqs': list(seq)})
+    return out
+
+
 def prepare(ctx):
     impl.warm()
 
@@ -148,6 +212,17 @@ def run(ctx):
         "few larger), which covers all distinct boundary/interior stencil "
         "configurations of the 2-cell-wide stencil",
         "tolerance 1e-11 relative to the largest operator entry")
+    if ctx.wants('sequences'):
+        ctx.explore('volume-model-sequences', FN_SEQ,
+                    sequence_cases(ctx.tier), engine='E2',
+                    rule='all frequency sequences of length 2..3 (thorough '
+                         '4) over {f1, f2, Laplace} of VolumeModels built '
+                         'from ONE model and grid object (TensorMesh and '
+                         'plain BaseMesh) x 3 models, all kept alive; every '
+                         'operator checked after all were built',
+                    time_cap=ctx.budget or (300 if ctx.quick else 900))
+    if not ctx.wants('operator'):
+        return
     cs = cases(ctx.tier)
     ctx.explore('operator', FN, cs, engine='E1',
                 rule='full product shape x widths x case x mu_r x eps_r x s; '
